@@ -72,6 +72,19 @@ Theorem C27_server_read_exact :
 Proof. exact s_read_spec. Qed.
 Print Assumptions C27_server_read_exact.
 
+(* a refused seek (negative target via SEEK_SET / SEEK_CUR / SEEK_END) leaves read-ahead buffer,
+   positions and server handle untouched (C27_refines_partial already covers refused seeks anywhere in
+   a disciplined program, e.g. after a buffered readline) *)
+Theorem C27_refused_seek_keeps_state :
+  forall (fuel : nat) (f : sfile) (off whence : Z),
+    wbuf f = [] ->
+    (if whence =? 0 then off else if whence =? 1 then pos f + off
+     else zlen (s_content (strm f)) + off) < 0 ->
+    exists f', sf_seek fuel f off whence = (FExn, f') /\
+      rbuf f' = rbuf f /\ wbuf f' = [] /\ pos f' = pos f /\ realpos f' = realpos f /\ strm f' = strm f.
+Proof. exact refused_seek_keeps_state. Qed.
+Print Assumptions C27_refused_seek_keeps_state.
+
 (* the model's MAX_REQUEST_SIZE and its table of modes -- wire flags put out by the real
    SFTPClient.open, their translation by the real _convert_pflags (access mode, O_APPEND, O_CREAT,
    O_TRUNC, O_EXCL) and the FLAG_* bits of the SFTPFile returned -- are those of the source
